@@ -1479,9 +1479,8 @@ class C18(Check):
             kf_read = ('C18-backslash-then-hex-escape' if hexq
                        else 'C18-url-edge-escape' if edge_ws else None)
             needs_quotes = any(c in '()\'";,' or c.isspace() or ord(c) < 0x20 or c == '\x7f' for c in want)
-            kf = kf_read or ('C18-escaped-dquote' if sdq
-                             else 'C18-url-trailing-backslash' if (style == 'u' and needs_quotes and want.endswith('\\'))
-                             else None)
+            # (the region of the former finding C18-url-trailing-backslash is gone: fixed by 61e31a0)
+            kf = kf_read or ('C18-escaped-dquote' if sdq else None)
             ctx.case(key=('url', src), nontrivial=(src != 'url(' + want + ')'),
                      kind='url:%s%s' % ('unquoted' if style == 'u' else 'quoted', ':region' if kf else ''),
                      sample={'url': src, 'uri': r, 'written': pv.cssText})
